@@ -23,7 +23,10 @@ Arguments Err {A} e.
 
 Definition bind {A B} (r : res A) (f : A -> res B) : res B :=
   match r with Ok a => f a | Err e => Err e end.
-Notation "'do' x <- r ; k" := (bind r (fun x => k)) (at level 200, x pattern, r at level 100, k at level 200).
+Notation "'do' x <- r ; k" := (bind r (fun x => k))
+  (at level 200, x name, r at level 100, k at level 200).
+Notation "'do' ' p <- r ; k" := (bind r (fun x => let 'p := x in k))
+  (at level 200, p strict pattern, r at level 100, k at level 200).
 
 Definition err_name (e : err) : string :=
   match e with
